@@ -98,20 +98,36 @@ class _GeventProxy:
 
 
 class FakeFile:
+    """What sock.makefile("rw") gives the server: a buffered text file.  On a connection that
+    was reset by the peer, write() still only fills the buffer, flush() fails with EPIPE, and
+    close() - which flushes - fails again while data is pending."""
+
     def __init__(self, sock):
         self.sock = sock
+        self.pending = False
+        self.closed = False
 
     def readline(self):
-        return self.sock.inq.get()
+        item = self.sock.inq.get()
+        if isinstance(item, BaseException):
+            raise item
+        return item
 
     def write(self, data):
         self.sock.sim._on_response(self.sock, data)
+        if self.sock.broken:
+            self.pending = True
 
     def flush(self):
-        pass
+        if self.sock.broken and self.pending:
+            raise BrokenPipeError(32, "Broken pipe (connection reset by peer, injected)")
 
     def close(self):
-        pass
+        if self.closed:
+            return
+        self.closed = True
+        if self.sock.broken and self.pending:
+            raise BrokenPipeError(32, "Broken pipe (connection reset by peer, injected)")
 
 
 class FakeSock:
@@ -122,6 +138,7 @@ class FakeSock:
         self.epoch = epoch  # server incarnation it belongs to
         self.inq = gevent.queue.Queue()
         self.closed = False
+        self.broken = False  # reset by the peer: writes fail from now on
         self.eof_sent = False
         self.outstanding = None  # (rpc, args) of the request awaiting a response
         self.reply_cb = None
@@ -414,6 +431,18 @@ class QsSim:
         sock.eof_sent = True
         self._stamp("eof", sock.name)
         sock.inq.put("")
+        return True
+
+    def reset(self, name):
+        """The peer vanishes with a connection reset (crash, SO_LINGER 0, NAT timeout): the
+        server's next read fails with ECONNRESET and whatever it still writes hits EPIPE."""
+        if not self.is_live(name):
+            return False
+        sock = self.conns[name]
+        sock.eof_sent = True
+        sock.broken = True
+        self._stamp("rst", sock.name)
+        sock.inq.put(ConnectionResetError(104, "Connection reset by peer (injected)"))
         return True
 
     def send(self, name, rpc, args):
